@@ -85,6 +85,16 @@ def event_projects():
                                                                            "pub fn f2(app: AppHandle, y: OnlySecondSite) {\n    app.emit(\"changed\", y).unwrap();\n}\n\n"
                                                                            "pub fn f3(app: AppHandle) {\n    app.emit(\"changed\", 3).unwrap();\n}\n")]))
     P.append(("no-events", [("lib.rs", a)]))
+    # names the generator makes up (parameter objects <Command>Params, the bindings commands.ts imports) against names the project chose
+    P.append(("struct-named-like-its-commands-parameter-object", [("lib.rs", a + rg.struct_src("GetUserParams", [("id", "i32")]) +
+                                                                    rg.command_src("get_user", [("params", "GetUserParams")], "Foo"))]))
+    P.append(("struct-named-like-another-commands-parameter-object", [("lib.rs", a + rg.struct_src("ListAllParams", [("page", "u32")]) +
+                                                                        rg.command_src("list_all", [("limit", "u32")], "Vec<Foo>") +
+                                                                        rg.command_src("search", [("query", "ListAllParams")], "Vec<Foo>"))]))
+    P.append(("struct-named-like-a-numbered-parameter-object", [("lib.rs", a + rg.struct_src("GetUserParams", [("id", "i32")]) + rg.struct_src("GetUser2Params", [("id", "i32")]) +
+                                                                  rg.command_src("get_user", [("params", "GetUserParams"), ("more", "GetUser2Params")], "Foo"))]))
+    for nm in ("types", "invoke", "listen", "z", "channel", "command_hooks", "zod_error"):
+        P.append(("command-named-%s" % nm, [("lib.rs", a + rg.command_src(nm, [("id", "i32")], "Foo") + rg.command_src(nm + "_", [("w", "Wrap")], "i32"))]))
     P.append(("event-in-command-body", [("lib.rs", a + rg.command_src("go", [("app", "AppHandle"), ("k", "Kind")], "Foo", body="app.emit(\"started\", k).unwrap(); todo!()"))]))
     return P
 
@@ -220,6 +230,13 @@ def run(tier):
             for mode in ("none", "zod"):
                 jobs.append((cli, "%s/%s/SoloMsg" % (site, plabel), site_project(site, t, extra_defs=solo), mode,
                              {"site": site, "position": plabel, "kind": "only-reachable-through-this-site", "type": t}))
+    # ... and that is mentioned only behind a reference nested inside another type (borrowed view structs)
+    for text in ("Vec<&'static SoloMsg>", "Option<&'static SoloMsg>", "HashMap<&'static str, &'static SoloMsg>", "(&'static SoloMsg, u32)", "Vec<&SoloMsg>",
+                 "&'static Vec<&'static SoloMsg>", "Result<Vec<&'static SoloMsg>, String>", "Option<&'static mut SoloMsg>", "&'static &'static SoloMsg"):
+        for site in SITES + ("channel-only",):
+            for mode in ("none", "zod"):
+                jobs.append((cli, "%s/nested-reference/%s" % (site, text), site_project(site, ("raw", text), extra_defs=solo), mode,
+                             {"site": site, "position": "nested-reference", "kind": "only-reachable-through-this-site", "type": None}))
     # serde tuple structs (struct Id(pub u32); struct Pair(pub i32, pub Foo);) are project-defined serde structs as well
     for kind in TUPLE_NAMES:
         for (plabel, pf) in positions[:8]:
